@@ -15,7 +15,7 @@ pub fn prop() -> Prop {
 fn spec() -> Spec {
     Spec {
         kinds: vec![Kind { name: "sampler", quick: 20_000, thorough: 500_000, serial: false }, Kind { name: "through_planner", quick: 300, thorough: 10_000, serial: false }],
-        rule: "each case = one constraint set with per-joint (from,to) in [-2pi,2pi] of classes from<to, from>to straddling zero, from>to both positive, from>to both negative, from==to, limits at +-2pi; 500 draws of random_angles() per set (cases run on 16 threads, the library RNG is thread-local); every draw is judged by the reference arc oracle and by the library's own compliant(); through_planner: the sampler as the RRT planner drives it (synthetic cell, collision checks on, limits with wrap-around ranges that contain start and goal, small try budget): no panic (and, with non-wrapping limits, every node of a returned path is accepted by the limits). non-trivial = set contains at least one wrap-around joint; distinct = hash(from,to)",
+        rule: "each case = one constraint set with per-joint (from,to) in [-2pi,2pi] of classes from<to, from>to straddling zero, from>to both positive, from>to both negative, from==to, limits at +-2pi; 500 draws of random_angles() per set (cases run on 16 threads, the library RNG is thread-local); every draw is judged by the reference arc oracle and by the library's own compliant(); through_planner: the sampler as the RRT planner drives it (synthetic cell, collision checks on, limits with wrap-around ranges that contain start and goal, small try budget): no panic (and, with non-wrapping limits, every node of a returned path is accepted by the limits). non-trivial = set contains at least one wrap-around joint; distinct = hash(from,to) Workload additions: limits installed through update_range histories; from == to with signed zeros; arcs a few ulps wide, plain and wrapping.",
         assumptions: vec![
             "draws within 1e-9 rad of an arc end are inconclusive",
             "from > to with from == to (mod 2pi) describes no arc of positive width and is not generated",
@@ -139,7 +139,7 @@ fn run_case(kind: &str, idx: u64, rng: &mut Rng, mon: &mut Mon, _tier: Tier) {
                     (2.0 * PI - w, w * rng.f(), "tiny_arc_wrapping")
                 }
             }
-            _ => (*rng.pick(&[-2.0 * PI, -PI, 0.0]), *rng.pick(&[PI / 2.0, PI - 0.01, 2.0 * PI]), "from<to_edges"),
+            _ => (*rng.pick(&[-2.0 * PI, -PI, 0.0]), *rng.pick(&[PI / 2.0, PI - 0.01, PI, 2.0 * PI]), "from<to_edges"),
         };
         // exclude from>to with from==to mod 2pi
         let (f, t) = if f > t && ((f - t) % (2.0 * PI)).abs() < 1e-9 { (f, t + 0.1) } else { (f, t) };
@@ -165,6 +165,30 @@ fn run_case(kind: &str, idx: u64, rng: &mut Rng, mon: &mut Mon, _tier: Tier) {
         }
     };
     mon.count(&format!("constructor.{}", ["new", "update_range", "from_degrees"][ctor]));
+    // a fifth of the sets is not used directly but handed to a solver (dof 5 or 6, bare or behind a tool) and read
+    // back through Kinematics::constraints(), the way the planner's sampling callback obtains it
+    let c = if rng.bool(0.2) {
+        use rs_opw_kinematics::kinematic_traits::Kinematics;
+        let mut p = rs_opw_kinematics::parameters::opw_kinematics::Parameters::irb2400_10();
+        if rng.bool(0.5) {
+            p.dof = 5;
+            if rng.bool(0.5) {
+                p.sign_corrections[5] = 0;
+            }
+        }
+        let solver: std::sync::Arc<dyn Kinematics> = std::sync::Arc::new(rs_opw_kinematics::kinematics_impl::OPWKinematics::new_with_constraints(p, c));
+        let solver: std::sync::Arc<dyn Kinematics> = if rng.bool(0.5) { std::sync::Arc::new(rs_opw_kinematics::tool::Tool { robot: solver, tool: nalgebra::Isometry3::translation(0.0, 0.0, 0.1) }) } else { solver };
+        mon.count("sets_read_back_from_a_solver");
+        match solver.constraints() {
+            Some(c2) => *c2,
+            None => {
+                mon.violation("solver-lost-its-constraints", "a solver built with constraints reports none", json!({"from": jf(&from), "to": jf(&to)}));
+                return;
+            }
+        }
+    } else {
+        c
+    };
     if classes.iter().any(|c| c.starts_with("wrap")) {
         mon.nontrivial(hash_f64s(&[from, to].concat()));
     }
